@@ -22,14 +22,16 @@ pub fn get_counts_correction(spdc: &SPDC) -> f64 {
   let np = spdc
     .pump
     .refractive_index(spdc.pump.frequency(), &spdc.crystal_setup);
+  // the density of states of the two down-converted modes contributes the group
+  // indices of signal and idler, which keeps the factor symmetric under their exchange
   let ngs = spdc
     .signal
     .group_index(&spdc.crystal_setup, PeriodicPoling::Off);
-  let ngp = spdc
-    .pump
+  let ngi = spdc
+    .idler
     .group_index(&spdc.crystal_setup, PeriodicPoling::Off);
 
-  *((li * ls * ngs * ngp) / (4. * sq(lp * ns * ni) * np))
+  *((li * ls * ngs * ngi) / (4. * sq(lp * ns * ni) * np))
 }
 
 /// Get the counts over the given frequency ranges
